@@ -370,7 +370,7 @@ func range_(tokens []Token) ([2]int, error) {
 		for i, token := range tokens {
 			switch token := token.(type) {
 			case pa.Ident:
-				if token.Value == "infinite" {
+				if utils.AsciiLower(token.Value) == "infinite" {
 					values[i] = math.MaxInt32
 					continue
 				}
